@@ -11,7 +11,6 @@ def encOpt : Option Cps → String
 
 def showErr : Err → String
   | .valueError => "ValueError"
-  | .typeError => "TypeError"
   | .attributeError => "AttributeError"
   | .extractor => "Extractor"
 
@@ -21,7 +20,9 @@ def decBool (w : String) : Option Bool :=
   if w == "1" then some true else if w == "0" then some false else none
 
 def decParam (w : String) : Option Param :=
-  if w == "N" then some .none else if w == "T" then some .tuple else (decCps w).map .str
+  if w == "N" then some .none
+  else if w.startsWith "T" then (decCps (w.drop 1).toString).map .tuple
+  else (decCps w).map .str
 
 def decMeta (kind mt cs : String) : Option MetaRaw :=
   if kind == "raises" then some .raises
